@@ -238,6 +238,9 @@ class Filenames(object):
                     if result not in self.invalid:
                         self.invalid[result] = None
                         yield result
+                        # The give-up bound below counts the fruitless
+                        # passes of one request, not the requests made
+                        passes = 0
                     else:
                         continue
                     break
